@@ -373,3 +373,129 @@ def run_task_history(ops, tm_factory=None):
     finally:
         env.close()
     return trace, bad
+
+
+# ======================================================================================= IPv8 service object
+class SvcEnv:
+    """A real ipv8_service.IPv8 (no configured overlays) with stub overlays and stub strategies, on a virtual-time loop."""
+
+    def __init__(self):
+        import ipv8_service
+        from ipv8.messaging.interfaces.endpoint import Endpoint
+        self.loop = VLoop()
+        asyncio.set_event_loop(self.loop)
+        env = self
+        self.steps = []
+        self.due = set()
+
+        class Ep(Endpoint):
+            def __init__(self):
+                super().__init__()
+                self._o = True
+
+            def assert_open(self):
+                assert self._o
+
+            def is_open(self):
+                return self._o
+
+            def get_address(self):
+                return ("10.9.9.9", 9)
+
+            def send(self, a, p):
+                pass
+
+            async def open(self):
+                self._o = True
+                return True
+
+            def close(self):
+                self._o = False
+
+            def reset_byte_counters(self):
+                pass
+
+        class Ov:
+            def __init__(self, i):
+                self.i = i
+                self.unloaded = 0
+
+            async def unload(self):
+                self.unloaded += 1
+
+        class St:
+            def __init__(self, sid, ov):
+                self.sid, self.overlay = sid, ov
+
+            def take_step(self):
+                env.steps.append((self.sid, self.overlay.i))
+
+            def get_peer_count(self):
+                return 0 if self.sid in env.due else 100
+        self.Ov, self.St = Ov, St
+        self.ipv8 = ipv8_service.IPv8({"overlays": [], "keys": [], "logger": {"level": "CRITICAL"}, "walker_interval": 0.5},
+                                      endpoint_override=Ep())
+        self.ipv8.state_machine_task = self.loop.create_future()
+        self.ovs = {}
+
+    def ov(self, i):
+        if i not in self.ovs:
+            self.ovs[i] = self.Ov(i)
+        return self.ovs[i]
+
+    def apply(self, op):
+        self.steps = []
+        k = op[0]
+        if k == "add":
+            self.ipv8.add_strategy(self.ov(op[1]), self.St(op[2], self.ov(op[1])), 10)
+        elif k == "unload":
+            self.loop.run_until_complete(self.ipv8.unload_overlay(self.ov(op[1])))
+        elif k == "tick":
+            self.due = set(op[1])
+            self.loop.run_until_complete(self.ipv8.on_tick())
+        elif k == "stop":
+            self.loop.run_until_complete(self.ipv8.stop())
+        return list(self.steps)
+
+    def observe(self):
+        return [o.i for o in self.ipv8.overlays], [(s.sid, s.overlay.i) for s, _ in self.ipv8.strategies]
+
+    def close(self):
+        f = self.ipv8.state_machine_task
+        if f is not None and not f.done():
+            f.cancel()
+        asyncio.set_event_loop(None)
+        self.loop.close()
+
+
+def run_service_history(ops):
+    """-> (per-op take_step calls, (overlays, strategies), oracle findings)"""
+    env = SvcEnv()
+    bad, outs = [], []
+    unloaded = set()
+    try:
+        for n, op in enumerate(ops):
+            steps = env.apply(op)
+            outs.append(steps)
+            if op[0] == "add":
+                unloaded.discard(op[1])
+            elif op[0] == "unload":
+                unloaded.add(op[1])
+                left = [s for s, o in env.observe()[1] if o == op[1]]
+                if left:
+                    bad.append(("service/strategy-still-scheduled", "after unload_overlay(overlay %d) its strategies %s are still in "
+                                "IPv8.strategies" % (op[1], left)))
+                if op[1] in env.observe()[0]:
+                    bad.append(("service/overlay-still-listed", "after unload_overlay(overlay %d) it is still in IPv8.overlays" % op[1]))
+            elif op[0] == "stop":
+                unloaded |= set(env.ovs)
+                if steps:
+                    bad.append(("service/strategy-step-during-stop", "stop() stepped strategies %s" % steps))
+            for sid, o in steps:
+                if o in unloaded:
+                    bad.append(("late/strategy-step", "op %d: the ticker called take_step on strategy %d of overlay %d after "
+                                "unload_overlay/stop" % (n, sid, o)))
+        obs = env.observe()
+    finally:
+        env.close()
+    return outs, obs, bad
